@@ -5,9 +5,9 @@
 (*    (optionally two consecutive frames share a timestamp, optionally no    *)
 (*    partition-tail markers), the network delivers them with bounded        *)
 (*    reordering, loss and duplication, the receiver calls Push, Pop (one    *)
-(*    or until nil), possibly Flush in mid-stream, and finally Flush and     *)
-(*    Pop until nil.  The first sequence number is M - startBack, so         *)
-(*    streams cross the wrap.                                                *)
+(*    or until nil, or after every Push), possibly Flush in mid-stream, and  *)
+(*    finally Flush and Pop until nil.  The first sequence number is         *)
+(*    M - startBack, so streams cross the wrap.                              *)
 (*                                                                           *)
 (* 2. Algo = "abstract": the normative machine.  Pop may return ANY sample   *)
 (*    the legality guards of SampleBuilderOps allow.  TLC checks that the    *)
@@ -48,20 +48,24 @@ CONSTANTS M,            \* sequence-number modulus
           Modes,        \* subset of {"clean", "lossy", "dup", "pops", "all"}: what may happen besides reordering
           MaxLoss, MaxDup, MaxPopCalls,
           MaxMidFlush,  \* Flush calls before the last push (the final Flush is always made)
+          Eagers,       \* subset of BOOLEAN: the receiver calls Pop until nil after every Push (the usual way to use it)
+          Holds,        \* (sampling) stream positions of a straggler, 0 = none: that packet is kept back in the network
+          HoldFors,     \* (sampling) ... until so many later packets have been delivered
           Algo,         \* "none" | "abstract" | "ring"
           Impl,         \* "asis" | "fixAB" | "fixABC"
           Sampling      \* TRUE: every choice is one seeded random draw (for -simulate)
 
-VARIABLES phase, par, frames, pkts, script, pending, nextIdx, sent, nloss, ndup, npop, nflush, sb, emitted, pushed, premOK, bad
+VARIABLES phase, par, frames, pkts, script, pending, nextIdx, sent, nloss, ndup, npop, nflush, sb, emitted, pushed, premOK, bad,
+          since, poppedSince   \* pushed since the last Flush; Pop called on them
 
-vars == <<phase, par, frames, pkts, script, pending, nextIdx, sent, nloss, ndup, npop, nflush, sb, emitted, pushed, premOK, bad>>
+vars == <<phase, par, frames, pkts, script, pending, nextIdx, sent, nloss, ndup, npop, nflush, sb, emitted, pushed, premOK, bad, since, poppedSince>>
 
 Pick(S) == IF Sampling THEN RandomSubset(1, S) ELSE S
 \* in sampling mode: true with probability num/10
 Chance(num) == \E r \in Pick(1..10) : r <= num
 
 \* ---- the ring-buffer algorithm, transcribed ------------------------------------------------------
-NilPkt  == [tag |-> 0, seq |-> 0, ts |-> 0, head |-> FALSE, tail |-> FALSE, frame |-> 0]
+NilPkt  == [tag |-> 0, seq |-> 0, ts |-> 0, head |-> FALSE, tail |-> FALSE, frame |-> 0, sit |-> ""]
 ZeroLoc == [h |-> 0, t |-> 0]
 SB0 == [buf |-> IF Algo = "ring" THEN [i \in 0..(M - 1) |-> NilPkt] ELSE <<>>,
         filled |-> ZeroLoc, active |-> ZeroLoc, prep |-> <<>>, dropped |-> 0,
@@ -139,7 +143,8 @@ BuildSample(s0, purging) ==
   THEN \* the run does not start at a partition head: it is dropped
        LET s4 == [s3 EXCEPT !.dropped = (s3.dropped + Count(consume)) % M]
        IN [s |-> PurgeConsumedBuffers(PurgeConsumedLocation(s4, consume, TRUE)), built |-> FALSE]
-  ELSE LET s4 == [s3 EXCEPT !.prep = Append(s3.prep, TagsOf(s3, consume)), !.dropped = 0]
+  ELSE LET s4 == [s3 EXCEPT !.prep = Append(s3.prep, [tags |-> TagsOf(s3, consume), sit |-> s3.buf[consume.h].sit]),
+                            !.dropped = 0]
        IN [s |-> PurgeConsumedBuffers(PurgeConsumedLocation(s4, consume, TRUE)), built |-> TRUE]
 
 \* purgeBuffers(flush)
@@ -180,10 +185,11 @@ DoPush(s, p, delay, maxLate) ==
               [] OTHER        -> s1
   IN PurgeBuffers(s2, FALSE, delay, maxLate)
 
-\* Pop: returns the new state and the popped sample (<<>> for nil)
+\* Pop: returns the new state and the popped sample [tags, sit] (NoSample for nil)
+NoSample == [tags |-> <<>>, sit |-> ""]
 DoPop(s) ==
   LET r == BuildSample(s, FALSE).s IN
-  IF r.prep = <<>> THEN [s |-> r, out |-> <<>>]
+  IF r.prep = <<>> THEN [s |-> r, out |-> NoSample]
   ELSE [s |-> [r EXCEPT !.prep = Tail(r.prep)], out |-> Head(r.prep)]
 
 \* ---- the session generator -----------------------------------------------------------------------
@@ -208,24 +214,27 @@ MkPkts ==
                  ts1 == IF f > 1 /\ fr.same THEN ts ELSE ts + 1
                  new == [k \in 1..fr.size |->
                            [tag |-> idx + k, seq |-> (M - par.startBack + idx + k - 1) % M, ts |-> ts1,
-                            head |-> k = 1, tail |-> par.markers /\ k = fr.size, frame |-> f]]
+                            head |-> k = 1, tail |-> par.markers /\ k = fr.size, frame |-> f, sit |-> ""]]
              IN Build(f + 1, acc \o new, ts1, idx + fr.size)
   IN Build(1, <<>>, 0, 0)
 
 Init == /\ phase = "setup"
-        /\ par = [maxLate |-> 0, delay |-> 0, startBack |-> 0, markers |-> TRUE, window |-> 1, mode |-> "clean"]
+        /\ par = [maxLate |-> 0, delay |-> 0, startBack |-> 0, markers |-> TRUE, window |-> 1, mode |-> "clean",
+                 eager |-> FALSE, hold |-> 0, holdFor |-> 0]
         /\ frames = <<>> /\ pkts = <<>> /\ script = <<>> /\ pending = {} /\ nextIdx = 1 /\ sent = {}
         /\ nloss = 0 /\ ndup = 0 /\ npop = 0 /\ nflush = 0 /\ sb = SB0 /\ emitted = <<>>
         /\ pushed = {} /\ premOK = TRUE /\ bad = {}
+        /\ since = {} /\ poppedSince = FALSE
         /\ TLCSet(1, {})             \* per-worker register: failure classes already printed
 
 Setup ==
   /\ phase = "setup"
   /\ \E ml \in Pick(MaxLates), d \in Pick(Delays), b \in Pick(StartBacks), mk \in Pick(MarkerModes),
-        w \in Pick(Windows), md \in Pick(Modes) :
-        par' = [maxLate |-> ml, delay |-> d, startBack |-> b, markers |-> mk, window |-> w, mode |-> md]
+        w \in Pick(Windows), md \in Pick(Modes), eg \in Pick(Eagers), h \in Pick(Holds), hf \in Pick(HoldFors) :
+        par' = [maxLate |-> ml, delay |-> d, startBack |-> b, markers |-> mk, window |-> w, mode |-> md,
+                eager |-> eg, hold |-> h, holdFor |-> hf]
   /\ phase' = "frames"
-  /\ UNCHANGED <<frames, pkts, script, pending, nextIdx, sent, nloss, ndup, npop, nflush, sb, emitted, pushed, premOK, bad>>
+  /\ UNCHANGED <<frames, pkts, script, pending, nextIdx, sent, nloss, ndup, npop, nflush, sb, emitted, pushed, premOK, bad, since, poppedSince>>
 
 \* frames sharing a timestamp: in exhaustive runs whenever SameTs, when sampling only in "all" sessions
 SameChoices == IF ~SameTs THEN {FALSE}
@@ -239,7 +248,7 @@ AddFrame ==
   /\ \E size \in Pick(FrameSizes), same \in SameChoices :
         /\ FrameTotal + size <= MaxPackets
         /\ frames' = Append(frames, [size |-> size, same |-> same /\ frames # <<>>])
-  /\ UNCHANGED <<phase, par, pkts, script, pending, nextIdx, sent, nloss, ndup, npop, nflush, sb, emitted, pushed, premOK, bad>>
+  /\ UNCHANGED <<phase, par, pkts, script, pending, nextIdx, sent, nloss, ndup, npop, nflush, sb, emitted, pushed, premOK, bad, since, poppedSince>>
 
 EndFrames ==
   /\ phase = "frames" /\ frames # <<>>
@@ -247,15 +256,19 @@ EndFrames ==
   /\ pkts' = MkPkts
   /\ pending' = 1..Min(par.window, FrameTotal) /\ nextIdx' = Min(par.window, FrameTotal) + 1 /\ sent' = {}
   /\ phase' = "arrive"
-  /\ UNCHANGED <<par, frames, script, nloss, ndup, npop, nflush, sb, emitted, pushed, premOK, bad>>
+  /\ UNCHANGED <<par, frames, script, nloss, ndup, npop, nflush, sb, emitted, pushed, premOK, bad, since, poppedSince>>
 
 \* The network holds at most `window` packets: `pending` is the set of the (up to) `window` oldest
 \* packets not yet delivered or lost, any of which may come next -- a packet is thus overtaken only by
 \* packets that entered the network while fewer than `window` older ones were still under way.
-Lowest == CHOOSE i \in pending : \A j \in pending : i <= j
+\* sampling only: a straggler stays in the network until holdFor later packets have been delivered
+HoldActive == /\ par.hold \in pending /\ pending # {par.hold}
+              /\ Cardinality({i \in pushed : i > par.hold}) < par.holdFor
+Candidates == IF HoldActive THEN pending \ {par.hold} ELSE pending
+Lowest == CHOOSE i \in Candidates : \A j \in Candidates : i <= j
 \* sampling: mostly in order, otherwise any pending packet
 DeliverChoices == IF ~Sampling THEN pending
-                  ELSE IF Chance(6) THEN {Lowest} ELSE RandomSubset(1, pending)
+                  ELSE IF Chance(6) THEN {Lowest} ELSE RandomSubset(1, Candidates)
 \* take i out of the network and let the next packets of the stream in
 TakeOut(i) ==
   LET p1 == pending \ {i}
@@ -267,56 +280,35 @@ MayDup  == par.mode \in {"dup", "all"}
 MayPop  == par.mode \in {"pops", "all"}
 Log(x) == Append(script, x)
 
-PushStep(i) ==
-  /\ script' = Log(i - 1)
-  /\ pushed' = pushed \cup {i}
-  /\ sb' = IF Algo = "ring" THEN DoPush(sb, pkts[i], par.delay, par.maxLate) ELSE sb
-
-Deliver ==
-  /\ phase = "arrive" /\ pending # {}
-  /\ \E i \in DeliverChoices :
-        /\ PushStep(i)
-        /\ TakeOut(i) /\ sent' = sent \cup {i}
-        /\ premOK' = IF Algo = "none" THEN premOK ELSE (premOK /\ ArrivalOK(Anchors(pkts), pushed, i, par.maxLate))
-  /\ UNCHANGED <<phase, par, frames, pkts, nloss, ndup, npop, nflush, emitted, bad>>
-
-Lose ==
-  /\ phase = "arrive" /\ pending # {} /\ nloss < MaxLoss /\ MayLose
-  /\ Sampling => Chance(1)
-  /\ \E i \in Pick(pending) : TakeOut(i)
-  /\ nloss' = nloss + 1
-  /\ UNCHANGED <<phase, par, frames, pkts, script, sent, ndup, npop, nflush, sb, emitted, pushed, premOK, bad>>
-
-\* a packet that was delivered arrives once more (now or much later)
-Dup ==
-  /\ phase = "arrive" /\ ndup < MaxDup /\ MayDup /\ sent # {}
-  /\ Sampling => Chance(1)
-  /\ \E i \in Pick(sent) : PushStep(i)
-  /\ ndup' = ndup + 1
-  /\ UNCHANGED <<phase, par, frames, pkts, pending, nextIdx, sent, nloss, npop, nflush, emitted, premOK, bad>>
-
 Vec == [maxLate |-> par.maxLate, delay |-> par.delay, startBack |-> par.startBack, markers |-> par.markers,
-        window |-> par.window, mode |-> par.mode,
+        window |-> par.window, mode |-> par.mode, eager |-> par.eager, hold |-> par.hold,
         frames |-> [k \in DOMAIN frames |-> frames[k].size],
         same |-> [k \in DOMAIN frames |-> frames[k].same], script |-> script]
 
 \* ---- judging a sample at the moment it comes out, with the normative operators -------------------
-PushesNow == [i \in 1..NPk |-> [tag |-> IF i \in pushed THEN i ELSE 0, at |-> 0]]
 Sample(tags) == [tags |-> tags, wf |-> TRUE, at |-> 1]
-Failing(prev, tags) ==
-  LET s == Sample(tags) IN
-  (IF ContiguousSameTs(pkts, PushesNow, s, M) THEN {} ELSE {"ContiguousSameTs"})
+\* the history as the normative operators want it, read off the script (scr: the script including the
+\* Pop call that returns the samples being judged)
+PushesOf(scr) == SelectSeq([k \in 1..Len(scr) |-> [tag |-> scr[k] + 1, at |-> k]], LAMBDA r : r.tag >= 1)
+\* a failure's label: shape, situation in which the sample's first packet arrived, class of maxLate
+CtxLabel(sit) == sit \o ":" \o WindowClass(par.maxLate)
+Failing(prev, tags, scr, sit) ==
+  LET s   == [tags |-> tags, wf |-> TRUE, at |-> Len(scr)]     \* comes out of the call at the end of scr
+      all == Append(prev, s)
+  IN
+  (IF ContiguousSameTs(pkts, PushesOf(scr), s, M) THEN {} ELSE {"ContiguousSameTs"})
   \cup (IF StartsAtHead(pkts, s) THEN {} ELSE {"StartsAtHead"})
   \cup (IF prev = <<>> \/ InOrder(pkts, prev[Len(prev)], s, M) THEN {}
-        ELSE {"InOrder:" \o InOrderShape(pkts, Append(prev, s), Len(prev) + 1, M)})
-  \cup (IF NoPacketTwice(Append(prev, s)) THEN {} ELSE {"NoPacketTwice:" \o TwiceShape(Append(prev, s))})
+        ELSE {"InOrder:" \o InOrderShape(pkts, all, Len(all), M) \o ":" \o CtxLabel(sit)})
+  \cup (IF ~ReusesPacket(all, Len(all)) THEN {}
+        ELSE {"NoPacketTwice:" \o ReuseShape(all, Len(all)) \o ":" \o CtxLabel(sit)})
 
-RECURSIVE Judge(_, _)
-\* prev: samples so far, new: sequence of tag sequences coming out now; returns [em, bad]
-Judge(prev, new) ==
+RECURSIVE Judge(_, _, _)
+\* prev: samples so far, new: what comes out now, a sequence of [tags, sit]; returns [em, bad]
+Judge(prev, new, scr) ==
   IF new = <<>> THEN [em |-> prev, bad |-> {}]
-  ELSE LET r == Judge(Append(prev, Sample(Head(new))), Tail(new))
-       IN [em |-> r.em, bad |-> Failing(prev, Head(new)) \cup r.bad]
+  ELSE LET r == Judge(Append(prev, Sample(Head(new).tags)), Tail(new), scr)
+       IN [em |-> r.em, bad |-> Failing(prev, Head(new).tags, scr, Head(new).sit) \cup r.bad]
 
 \* the legality guards of the normative machine: a run of pushed, unconsumed packets with one
 \* timestamp, starting at a partition head, after the previous sample
@@ -330,22 +322,64 @@ LegalRuns ==
           LET lt == emitted[Len(emitted)].tags IN SeqBefore(pkts[lt[Len(lt)]].seq, pkts[r[1]].seq, M)}
 RunTags(r) == [k \in 1..(r[2] - r[1] + 1) |-> r[1] + k - 1]
 
-\* Pop until nil (ring): the sequence of tag sequences that come out
+\* Pop until nil (ring): the sequence of samples [tags, sit] that come out
 RECURSIVE PopAllRing(_, _)
 PopAllRing(s, acc) ==
   LET r == DoPop(s) IN
-  IF r.out = <<>> THEN [s |-> r.s, out |-> acc] ELSE PopAllRing(r.s, Append(acc, r.out))
+  IF r.out.tags = <<>> THEN [s |-> r.s, out |-> acc] ELSE PopAllRing(r.s, Append(acc, r.out))
 
 \* a failure class (predicate:shape, with / without duplicates pushed so far) seen for the first
 \* time on this path is printed with the script that leads to it: a candidate for the replay
 Emit(new) ==
-  LET j == Judge(emitted, new) IN
+  LET j == Judge(emitted, new, script') IN
   /\ emitted' = j.em /\ bad' = bad \cup j.bad
-  /\ \A c \in j.bad :
-        LET k == <<c, ndup > 0>> IN
+  /\ \A c \in j.bad \ bad :
+        LET dups == \E a \in 1..Len(script'), b \in 1..Len(script') : a < b /\ script'[a] >= 0 /\ script'[a] = script'[b]
+            k == <<c, dups>> IN
         \/ k \in TLCGet(1)          \* this worker has printed an example of the class already
         \/ /\ TLCSet(1, TLCGet(1) \cup {k})
-           /\ PrintT(<<"VERIF_CLASS", ToJson([class |-> c, dups |-> ndup > 0, vec |-> [Vec EXCEPT !.script = script']])>>)
+           /\ PrintT(<<"VERIF_CLASS", ToJson([class |-> c, dups |-> dups, vec |-> [Vec EXCEPT !.script = script']])>>)
+
+\* every arrival carries the situation in which it was pushed (the real driver numbers the arrivals in
+\* the payload, so a sample names the very pushes it was built from)
+Arrival(i) == [pkts[i] EXCEPT !.sit = PushSituation(pkts, since \ AllTags(emitted), i, poppedSince, M)
+                                      \o (IF nflush > 0 THEN "/after-a-flush" ELSE "/no-flush-yet")]
+\* Push of packet i; an eager receiver pops until nil right after it
+PushStep(i) ==
+  /\ pushed' = pushed \cup {i}
+  /\ since' = since \cup {i}
+  /\ poppedSince' = (poppedSince \/ par.eager)
+  /\ IF par.eager
+     THEN /\ script' = Append(Append(script, i - 1), -1)
+          /\ IF Algo = "ring"
+             THEN LET r == PopAllRing(DoPush(sb, Arrival(i), par.delay, par.maxLate), <<>>) IN sb' = r.s /\ Emit(r.out)
+             ELSE UNCHANGED <<sb, emitted, bad>>
+     ELSE /\ script' = Log(i - 1)
+          /\ sb' = IF Algo = "ring" THEN DoPush(sb, Arrival(i), par.delay, par.maxLate) ELSE sb
+          /\ UNCHANGED <<emitted, bad>>
+
+Deliver ==
+  /\ phase = "arrive" /\ pending # {}
+  /\ \E i \in DeliverChoices :
+        /\ PushStep(i)
+        /\ TakeOut(i) /\ sent' = sent \cup {i}
+        /\ premOK' = IF Algo = "none" THEN premOK ELSE (premOK /\ ArrivalOK(Anchors(pkts), pushed, i, par.maxLate))
+  /\ UNCHANGED <<phase, par, frames, pkts, nloss, ndup, npop, nflush>>
+
+Lose ==
+  /\ phase = "arrive" /\ pending # {} /\ nloss < MaxLoss /\ MayLose
+  /\ Sampling => Chance(1)
+  /\ \E i \in Pick(pending) : TakeOut(i)
+  /\ nloss' = nloss + 1
+  /\ UNCHANGED <<phase, par, frames, pkts, script, sent, ndup, npop, nflush, sb, emitted, pushed, premOK, bad, since, poppedSince>>
+
+\* a packet that was delivered arrives once more (now or much later)
+Dup ==
+  /\ phase = "arrive" /\ ndup < MaxDup /\ MayDup /\ sent # {}
+  /\ Sampling => Chance(1)
+  /\ \E i \in Pick(sent) : PushStep(i)
+  /\ ndup' = ndup + 1
+  /\ UNCHANGED <<phase, par, frames, pkts, pending, nextIdx, sent, nloss, npop, nflush, premOK>>
 
 PopOne ==
   /\ phase = "arrive" /\ npop < MaxPopCalls /\ MayPop
@@ -353,13 +387,14 @@ PopOne ==
   /\ script' = Log(-3)
   /\ npop' = npop + 1
   /\ CASE Algo = "ring" ->
-            LET r == DoPop(sb) IN sb' = r.s /\ Emit(IF r.out = <<>> THEN <<>> ELSE <<r.out>>)
+            LET r == DoPop(sb) IN sb' = r.s /\ Emit(IF r.out.tags = <<>> THEN <<>> ELSE <<r.out>>)
        [] Algo = "abstract" ->
             /\ sb' = sb
             /\ \/ Emit(<<>>)                                                \* Pop may return nil
-               \/ \E r \in LegalRuns : Emit(<<RunTags(r)>>)
+               \/ \E r \in LegalRuns : Emit(<<[tags |-> RunTags(r), sit |-> "abstract"]>>)
        [] OTHER -> UNCHANGED <<sb, emitted, bad>>
-  /\ UNCHANGED <<phase, par, frames, pkts, pending, nextIdx, sent, nloss, ndup, nflush, pushed, premOK>>
+  /\ poppedSince' = (poppedSince \/ since # {})
+  /\ UNCHANGED <<phase, par, frames, pkts, pending, nextIdx, sent, nloss, ndup, nflush, pushed, premOK, since>>
 
 PopAll ==
   /\ phase \in {"arrive", "drain"}
@@ -371,16 +406,18 @@ PopAll ==
        [] Algo = "abstract" ->   \* drain: one more legal sample, or stop
             /\ sb' = sb
             /\ \/ Emit(<<>>)
-               \/ \E r \in LegalRuns : Emit(<<RunTags(r)>>)
+               \/ \E r \in LegalRuns : Emit(<<[tags |-> RunTags(r), sit |-> "abstract"]>>)
        [] OTHER -> UNCHANGED <<sb, emitted, bad>>
   /\ phase' = IF phase = "drain" /\ (Algo # "abstract" \/ emitted' = emitted) THEN "done" ELSE phase
-  /\ UNCHANGED <<par, frames, pkts, pending, nextIdx, sent, nloss, ndup, nflush, pushed, premOK>>
+  /\ poppedSince' = (poppedSince \/ since # {})
+  /\ UNCHANGED <<par, frames, pkts, pending, nextIdx, sent, nloss, ndup, nflush, pushed, premOK, since>>
 
 Flush ==
   /\ phase = "arrive" /\ pending = {}
   /\ script' = Log(-2)
   /\ sb' = IF Algo = "ring" THEN PurgeBuffers(sb, TRUE, par.delay, par.maxLate) ELSE sb
   /\ phase' = "drain"
+  /\ since' = {} /\ poppedSince' = FALSE
   /\ UNCHANGED <<par, frames, pkts, pending, nextIdx, sent, nloss, ndup, npop, nflush, emitted, pushed, premOK, bad>>
 
 \* Flush while packets are still under way (everything buffered is forced out; the stream goes on)
@@ -390,6 +427,7 @@ MidFlush ==
   /\ script' = Log(-2)
   /\ nflush' = nflush + 1
   /\ sb' = IF Algo = "ring" THEN PurgeBuffers(sb, TRUE, par.delay, par.maxLate) ELSE sb
+  /\ since' = {} /\ poppedSince' = FALSE
   /\ UNCHANGED <<phase, par, frames, pkts, pending, nextIdx, sent, nloss, ndup, npop, emitted, pushed, premOK, bad>>
 
 Next == Setup \/ AddFrame \/ EndFrames \/ Deliver \/ Lose \/ Dup \/ PopOne \/ PopAll \/ MidFlush \/ Flush
@@ -397,17 +435,20 @@ Next == Setup \/ AddFrame \/ EndFrames \/ Deliver \/ Lose \/ Dup \/ PopOne \/ Po
 Spec == Init /\ [][Next]_vars
 
 \* ---- what TLC checks -----------------------------------------------------------------------------
-mcview == <<phase, par, frames, pkts, pending, nextIdx, sent, nloss, ndup, npop, nflush, sb, emitted, pushed, premOK, bad>>
+mcview == <<phase, par, frames, pkts, pending, nextIdx, sent, nloss, ndup, npop, nflush, sb, emitted, pushed, premOK, bad, since, poppedSince>>
+Labels(pred, shapes) == {pred \o ":" \o sh \o ":abstract:" \o wc : sh \in shapes, wc \in WindowClasses} \cup
+                        {pred \o ":" \o sh \o ":" \o cx \o fl \o ":" \o wc :
+                            sh \in shapes, cx \in Contexts, fl \in {"/after-a-flush", "/no-flush-yet"}, wc \in WindowClasses}
 ModelContiguousSameTs == "ContiguousSameTs" \notin bad
 ModelStartsAtHead     == "StartsAtHead" \notin bad
-ModelInOrder          == \A c \in bad : c \notin {"InOrder:repeat", "InOrder:older", "InOrder:other"}
-ModelNoPacketTwice    == \A c \in bad : c \notin {"NoPacketTwice:repeat", "NoPacketTwice:overlap"}
+ModelInOrder          == bad \cap Labels("InOrder", {"repeat", "older", "other"}) = {}
+ModelNoPacketTwice    == bad \cap Labels("NoPacketTwice", {"repeat", "overlap"}) = {}
 
 \* the completeness premise of SampleBuilderOps, from the summarised history: npop counts Pop calls
 \* made before the final Flush, nflush earlier Flush calls, nloss / ndup losses and duplicates, premOK
 \* the per-push ArrivalOK
 ModelPremise == /\ StreamPremise(pkts, M) /\ par.delay = 0
-                /\ nloss = 0 /\ ndup = 0 /\ npop = 0 /\ nflush = 0 /\ premOK
+                /\ nloss = 0 /\ ndup = 0 /\ npop = 0 /\ nflush = 0 /\ premOK /\ ~par.eager
 ModelComplete == (phase = "done" /\ ModelPremise) => CompleteAfterFlush(pkts, emitted)
 
 \* the locations of the ring stay well formed: filled.head never overtakes filled.tail
